@@ -61,11 +61,14 @@ type Scenario struct {
 	Ctx        map[string]string `json:"ctx,omitempty"`
 	CtxAfterUs map[string]int    `json:"ctxAfterUs,omitempty"`
 	SlowDoneUs int               `json:"slowDoneUs"` // a done ctx dawdles in Done() (natural gate before a select)
-	Perturb    float64           `json:"perturb"`
-	Script     []string          `json:"script,omitempty"`
-	Name       string            `json:"name,omitempty"`
-	Kind       string            `json:"kind,omitempty"` // "batch" (default) | "simple" (SimpleSpanProcessor)
-	Seed       int64             `json:"seed"`
+	// every second span is the child of a REMOTE parent whose trace flags are ParentFlags (0 = no parent):
+	// the sampled span then carries those bits too (e.g. 0x03), and is as much a sampled span as any other
+	ParentFlags int      `json:"parentFlags"`
+	Perturb     float64  `json:"perturb"`
+	Script      []string `json:"script,omitempty"`
+	Name        string   `json:"name,omitempty"`
+	Kind        string   `json:"kind,omitempty"` // "batch" (default) | "simple" (SimpleSpanProcessor)
+	Seed        int64    `json:"seed"`
 }
 
 // ------------------------------------------------------------ SDK debug log -> Log events
@@ -272,7 +275,16 @@ func runScenario(scn int, sc Scenario, tw *vh.TraceWriter, res *vh.Result) {
 	next := 1
 	for p := 0; p < sc.Producers; p++ {
 		for k := 0; k < sc.SpansPer; k++ {
-			_, s := tracer.Start(context.Background(), "s")
+			pctx := context.Background()
+			if sc.ParentFlags != 0 && next%2 == 1 {
+				pctx = trace.ContextWithRemoteSpanContext(pctx, trace.NewSpanContext(trace.SpanContextConfig{
+					TraceID: trace.TraceID{0xab, byte(next), 1}, SpanID: trace.SpanID{0xcd, byte(next), 1},
+					TraceFlags: trace.TraceFlags(sc.ParentFlags), Remote: true}))
+			}
+			_, s := tracer.Start(pctx, "s")
+			if f := s.SpanContext().TraceFlags(); f != trace.FlagsSampled {
+				res.Count("spans_with_extra_trace_flags", 1)
+			}
 			ids[s.SpanContext().SpanID()] = next
 			owner[next] = fmt.Sprintf("p%d:%d", p+1, k+1)
 			next++
@@ -552,6 +564,7 @@ func randomScenario(r *rand.Rand) Scenario {
 		BatchTimeout: pick(0, 0, 200, 1000, 5000), ExportTOms: pick(0, 3, 30, 30000), ExpMode: "ok",
 		Perturb: []float64{0, 0.2, 0.6}[r.Intn(3)], Seed: r.Int63(),
 		Ctx: map[string]string{}, CtxAfterUs: map[string]int{}, SlowDoneUs: pick(0, 0, 0, 300),
+		ParentFlags: pick(0, 0, 0, 1, 2, 3),
 	}
 	if r.Intn(2) == 0 {
 		sc.ExpMode = "mixed"
